@@ -2,6 +2,7 @@ package an
 
 import (
 	"go/ast"
+	"go/token"
 	"go/types"
 	"regexp"
 	"sort"
@@ -185,5 +186,123 @@ func withUpCallers(a Allowed) Allowed {
 			}
 		}
 	}
+	return out
+}
+
+// LostShadowStores finds assignments `x = e` whose target is a variable declared in the init
+// statement of an enclosing if/switch (`if x := f(); …`) that shadows an outer variable or a
+// named result of the same name, where the assigned value is not read again inside that
+// statement: the author meant the outer variable, the store is lost when the scope ends.
+func LostShadowStores(src *FuncSrc) []ast.Node {
+	info := src.Pkg.TypesInfo
+	var out []ast.Node
+	// names visible in the function scope: parameters, named results, body-level locals
+	outer := map[string]bool{}
+	collect := func(fl *ast.FieldList) {
+		if fl == nil {
+			return
+		}
+		for _, f := range fl.List {
+			for _, n := range f.Names {
+				outer[n.Name] = true
+			}
+		}
+	}
+	collect(src.Decl.Type.Params)
+	collect(src.Decl.Type.Results)
+	var visit func(n ast.Node) bool
+	visit = func(n ast.Node) bool {
+		var init ast.Stmt
+		var scope ast.Node
+		switch x := n.(type) {
+		case *ast.IfStmt:
+			init, scope = x.Init, x
+		case *ast.SwitchStmt:
+			init, scope = x.Init, x
+		case *ast.AssignStmt:
+			if x.Tok == token.DEFINE {
+				for _, l := range x.Lhs {
+					if id, ok := l.(*ast.Ident); ok {
+						outer[id.Name] = true
+					}
+				}
+			}
+		}
+		as, ok := init.(*ast.AssignStmt)
+		if !ok || as.Tok != token.DEFINE {
+			return true
+		}
+		for _, l := range as.Lhs {
+			id, ok := l.(*ast.Ident)
+			if !ok || !outer[id.Name] {
+				continue
+			}
+			shadow := info.Defs[id]
+			if shadow == nil {
+				continue
+			}
+			// stores to the shadow inside the scope, and whether it is read afterwards
+			ast.Inspect(scope, func(k ast.Node) bool {
+				st, ok := k.(*ast.AssignStmt)
+				if !ok || st.Tok != token.ASSIGN {
+					return true
+				}
+				for _, sl := range st.Lhs {
+					sid, ok := sl.(*ast.Ident)
+					if !ok || info.Uses[sid] != shadow {
+						continue
+					}
+					readLater := false
+					ast.Inspect(scope, func(q ast.Node) bool {
+						if uid, ok := q.(*ast.Ident); ok && info.Uses[uid] == shadow && uid.Pos() > st.End() {
+							// a later plain store is not a read
+							readLater = true
+						}
+						return true
+					})
+					if !readLater {
+						out = append(out, st)
+						continue
+					}
+					// the shadow of a NAMED RESULT: the value is lost unless a return inside the scope hands it back
+					isNamedResult := false
+					if src.Decl.Type.Results != nil {
+						for _, f := range src.Decl.Type.Results.List {
+							for _, nm := range f.Names {
+								if nm.Name == sid.Name {
+									isNamedResult = true
+								}
+							}
+						}
+					}
+					if !isNamedResult {
+						continue
+					}
+					returned := false
+					ast.Inspect(scope, func(q ast.Node) bool {
+						rs, ok := q.(*ast.ReturnStmt)
+						if !ok || rs.Pos() < st.End() {
+							return true
+						}
+						for _, e := range rs.Results {
+							ast.Inspect(e, func(z ast.Node) bool {
+								if uid, ok := z.(*ast.Ident); ok && info.Uses[uid] == shadow {
+									returned = true
+								}
+								return true
+							})
+						}
+						return true
+					})
+					if !returned {
+						out = append(out, st)
+					}
+				}
+				return true
+			})
+		}
+		return true
+	}
+	ast.Inspect(src.Decl.Body, visit)
 	return out
 }
